@@ -550,7 +550,12 @@ static void run_frame(struct item *f, bool trace)
 #ifdef VX_TSAN
     tsan_check(tsan_before);
 #endif
-    if (g_pos < f->len) {
+    if (g_pos < f->len && vx_violations_this_exec() > 0) {
+        /* the harness reported a violation and stopped before the end of the prefix (a finding of a free-running
+         * phase can depend on timing and need not have occurred in the parent run): the report stands, and this
+         * execution has no children */
+    }
+    else if (g_pos < f->len) {
         char pre[400];
         int l = 0;
         for (int i = 0; i < f->len && l < (int)sizeof pre - 8; i++) {
